@@ -555,4 +555,248 @@ theorem tailFrom_eq (q : List (Int × Rat)) (k : Int) :
     · simp [h, ih]
     · simp [h, ih]
 
+/-! ### reachable scores; marginals -/
+
+/-- the scores words can have -/
+def Reach {σ : Type} [Add σ] [Zero σ] : List (List σ) → σ → Prop
+  | [], s => s = 0
+  | r :: rs, s => ∃ x ∈ r, ∃ s', Reach rs s' ∧ s = x + s'
+
+theorem expect_mono_reach {σ : Type} [Add σ] [Zero σ] {bg : List Rat} (hbg : ∀ b ∈ bg, 0 ≤ b)
+    (rows : List (List σ)) {f h : σ → Rat} (hfh : ∀ s, Reach rows s → f s ≤ h s) :
+    expect bg rows f ≤ expect bg rows h := by
+  induction rows generalizing f h with
+  | nil => exact hfh 0 rfl
+  | cons r rs ih =>
+    simp only [expect]
+    apply List.sum_le_sum
+    intro xb hxb
+    refine mul_le_mul_of_nonneg_left (ih fun s hs => hfh _ ?_) (hbg _ (List.of_mem_zip hxb).2)
+    exact ⟨xb.1, (List.of_mem_zip hxb).1, s, hs, rfl⟩
+
+/-- the distribution of an additive image of the score -/
+theorem expect_map {σ τ : Type} [Add σ] [Zero σ] [Add τ] [Zero τ] (bg : List Rat) (φ : σ → τ)
+    (hadd : ∀ a b, φ (a + b) = φ a + φ b) (h0 : φ 0 = 0) (rows : List (List σ)) (f : τ → Rat) :
+    expect bg (rows.map (List.map φ)) f = expect bg rows (fun s => f (φ s)) := by
+  induction rows generalizing f with
+  | nil => simp [expect, h0]
+  | cons r rs ih =>
+    simp only [List.map_cons, expect, List.zip_map_left, List.map_map]
+    congr 1
+    apply List.map_congr_left
+    intro xb _
+    simp only [Function.comp, Prod.map_fst, Prod.map_snd, id]
+    rw [ih]
+    congr 2
+    funext s
+    rw [hadd]
+
+/-! ### (R): rounding -/
+
+theorem foldl_maxBy (t : List Rat) (x : Rat) :
+    x ≤ t.foldl (fun acc y => if y < acc then acc else y) x ∧
+      (∀ y ∈ t, y ≤ t.foldl (fun acc y => if y < acc then acc else y) x) ∧
+      (t.foldl (fun acc y => if y < acc then acc else y) x = x ∨
+        t.foldl (fun acc y => if y < acc then acc else y) x ∈ t) := by
+  induction t generalizing x with
+  | nil => simp
+  | cons a t ih =>
+    simp only [List.foldl_cons]
+    by_cases h : a < x
+    · simp only [h, if_true]
+      obtain ⟨h1, h2, h3⟩ := ih x
+      refine ⟨h1, ?_, ?_⟩
+      · intro y hy
+        rcases List.mem_cons.1 hy with hy | hy
+        · subst hy; exact le_trans (le_of_lt h) h1
+        · exact h2 y hy
+      · rcases h3 with h3 | h3
+        · exact Or.inl h3
+        · exact Or.inr (List.mem_cons_of_mem _ h3)
+    · simp only [h, if_false]
+      obtain ⟨h1, h2, h3⟩ := ih a
+      refine ⟨le_trans (not_lt.1 h) h1, ?_, ?_⟩
+      · intro y hy
+        rcases List.mem_cons.1 hy with hy | hy
+        · subst hy; exact h1
+        · exact h2 y hy
+      · rcases h3 with h3 | h3
+        · exact Or.inr (by rw [h3]; exact List.mem_cons_self)
+        · exact Or.inr (List.mem_cons_of_mem _ h3)
+
+theorem maxBy_cons (x : Rat) (t : List Rat) :
+    maxBy (x :: t) = t.foldl (fun acc y => if y < acc then acc else y) x := by
+  simp [maxBy]
+
+theorem maxBy_ge {l : List Rat} {y : Rat} (hy : y ∈ l) : y ≤ maxBy l := by
+  cases l with
+  | nil => simp at hy
+  | cons x t =>
+    rw [maxBy_cons]
+    obtain ⟨h1, h2, _⟩ := foldl_maxBy t x
+    rcases List.mem_cons.1 hy with hy | hy
+    · subst hy; exact h1
+    · exact h2 y hy
+
+theorem maxBy_mem {l : List Rat} (hl : l ≠ []) : maxBy l ∈ l := by
+  cases l with
+  | nil => exact absurd rfl hl
+  | cons x t =>
+    rw [maxBy_cons]
+    obtain ⟨_, _, h3⟩ := foldl_maxBy t x
+    rcases h3 with h3 | h3
+    · rw [h3]; exact List.mem_cons_self
+    · exact List.mem_cons_of_mem _ h3
+
+/-- the error bound of one row dominates the rounding error of each of its cells and lies in [0,1) -/
+theorem rowErr_spec (g : Rat) (r : List Rat) :
+    (∀ x ∈ r, x / g - (⌊x / g⌋ : Rat) ≤ rowErr g r) ∧ 0 ≤ rowErr g r ∧ rowErr g r < 1 := by
+  have hfrac : ∀ y ∈ rowErrs g r, 0 ≤ y ∧ y < 1 := by
+    intro y hy
+    simp only [rowErrs, List.mem_map, div_rat, sub_rat, ofInt_rat, floor_rat] at hy
+    obtain ⟨x, _, rfl⟩ := hy
+    have h1 := Int.floor_le (x / g)
+    have h2 := Int.lt_floor_add_one (x / g)
+    constructor <;> linarith
+  refine ⟨?_, ?_, ?_⟩
+  · intro x hx
+    apply maxBy_ge
+    simp only [rowErrs, List.mem_map, div_rat, sub_rat, ofInt_rat, floor_rat]
+    exact ⟨x, hx, rfl⟩
+  · by_cases hr : rowErrs g r = []
+    · simp [rowErr, hr, maxBy]
+    · exact (hfrac _ (maxBy_mem hr)).1
+  · by_cases hr : rowErrs g r = []
+    · simp [rowErr, hr, maxBy]
+    · exact (hfrac _ (maxBy_mem hr)).2
+
+theorem foldl_add_rat {β : Type} (F : β → Rat) (l : List β) (a : Rat) :
+    l.foldl (fun acc r => Num.add acc (F r)) a = a + (l.map F).sum := by
+  induction l generalizing a with
+  | nil => simp
+  | cons x t ih =>
+    rw [List.foldl_cons, ih]
+    simp only [add_rat, List.map_cons, List.sum_cons]
+    ring
+
+theorem errorMax_eq (g : Rat) (rows : List (List Rat)) :
+    errorMax g rows = ((rows.drop 1).map (rowErr g)).sum := by
+  unfold errorMax
+  rw [foldl_add_rat]
+  simp
+
+theorem sum_rowErr_bounds (g : Rat) (rs : List (List Rat)) :
+    0 ≤ (rs.map (rowErr g)).sum ∧ (rs.map (rowErr g)).sum ≤ rs.length := by
+  induction rs with
+  | nil => simp
+  | cons r rs ih =>
+    obtain ⟨_, h1, h2⟩ := rowErr_spec g r
+    simp only [List.map_cons, List.sum_cons, List.length_cons, Nat.cast_add, Nat.cast_one]
+    constructor <;> linarith [ih.1, ih.2]
+
+/-- `0 ≤ error_max ≤ M - 1` -/
+theorem errorMax_bounds (g : Rat) (rows : List (List Rat)) :
+    0 ≤ errorMax g rows ∧ errorMax g rows ≤ ((rows.length - 1 : Nat) : Rat) := by
+  rw [errorMax_eq]
+  have := sum_rowErr_bounds g (rows.drop 1)
+  simpa using this
+
+/-- a row of cells paired with their integer images (offset included) -/
+def pairRow (g : Rat) (r : List Rat) : List (Rat × Int) :=
+  r.map fun x => (x, ⌊x / g⌋ + rowOffset (floorRow g r))
+
+def pairRows (g : Rat) (rows : List (List Rat)) : List (List (Rat × Int)) := rows.map (pairRow g)
+
+theorem pairRows_fst (g : Rat) (rows : List (List Rat)) :
+    (pairRows g rows).map (List.map Prod.fst) = rows := by
+  simp [pairRows, pairRow, Function.comp_def]
+
+theorem pairRows_snd (g : Rat) (rows : List (List Rat)) :
+    (pairRows g rows).map (List.map Prod.snd) = (recompute rows g).im := by
+  simp [pairRows, pairRow, recompute, intRow, floorRow, Function.comp_def]
+
+/-- the real-score marginal of the coupling -/
+theorem expect_pair_fst (bg : List Rat) (g : Rat) (rows : List (List Rat)) (f : Rat → Rat) :
+    expect bg (pairRows g rows) (fun sd => f sd.1) = expect bg rows f := by
+  have := expect_map bg (Prod.fst : Rat × Int → Rat) (fun _ _ => rfl) rfl (pairRows g rows) f
+  rw [pairRows_fst] at this
+  exact this.symm
+
+/-- the integer-score marginal of the coupling -/
+theorem expect_pair_snd (bg : List Rat) (g : Rat) (rows : List (List Rat)) (f : Int → Rat) :
+    expect bg (pairRows g rows) (fun sd => f sd.2) = expect bg (recompute rows g).im f := by
+  have := expect_map bg (Prod.snd : Rat × Int → Int) (fun _ _ => rfl) rfl (pairRows g rows) f
+  rw [pairRows_snd] at this
+  exact this.symm
+
+theorem nonneg_im (g : Rat) (rows : List (List Rat)) : NonnegRows (recompute rows g).im := by
+  intro r hr x hx
+  simp only [recompute, List.mem_map] at hr
+  obtain ⟨r0, _, rfl⟩ := hr
+  simp only [intRow, List.mem_map] at hx
+  obtain ⟨y, hy, rfl⟩ := hx
+  have := listMin_le hy
+  simp only [rowOffset]
+  omega
+
+theorem offsets_eq (g : Rat) (rows : List (List Rat)) :
+    (recompute rows g).offsets = rows.map (fun r => rowOffset (floorRow g r)) := rfl
+
+/-- rows whose error bound is part of `error_max` -/
+theorem reach_tailRows (g : Rat) (rs : List (List Rat)) {S : Rat} {D : Int}
+    (h : Reach (pairRows g rs) (S, D)) :
+    ((D : Rat) - ((rs.map fun r => rowOffset (floorRow g r)).sum : Int) ≤ S / g) ∧
+      S / g ≤ (D : Rat) - ((rs.map fun r => rowOffset (floorRow g r)).sum : Int)
+        + (rs.map (rowErr g)).sum := by
+  induction rs generalizing S D with
+  | nil =>
+    simp only [pairRows, List.map_nil, Reach] at h
+    have h1 : S = 0 := congrArg Prod.fst h
+    have h2 : D = 0 := congrArg Prod.snd h
+    subst h1; subst h2
+    simp
+  | cons r rs ih =>
+    simp only [pairRows, List.map_cons, Reach] at h
+    obtain ⟨xd, hxd, ⟨S', D'⟩, hr, heq⟩ := h
+    simp only [pairRow, List.mem_map] at hxd
+    obtain ⟨x, hx, rfl⟩ := hxd
+    have h1 : S = x + S' := congrArg Prod.fst heq
+    have h2 : D = ⌊x / g⌋ + rowOffset (floorRow g r) + D' := congrArg Prod.snd heq
+    obtain ⟨i1, i2⟩ := ih hr
+    obtain ⟨e1, _, _⟩ := rowErr_spec g r
+    have e1 := e1 x hx
+    have f1 := Int.floor_le (x / g)
+    subst h1; subst h2
+    simp only [List.map_cons, List.sum_cons, Int.cast_add, add_div]
+    constructor <;> linarith
+
+/-- **(R)**  For every word, with `X = S/g + Σ offsets` its rescaled real score, `D` its integer
+    score and `E = error_max`:  `D ≤ X < D + E + 1`  (row 0 contributes less than 1 and is not part
+    of `E`; every other row contributes at most its error bound). -/
+theorem rounding (g : Rat) (rows : List (List Rat)) {S : Rat} {D : Int}
+    (h : Reach (pairRows g rows) (S, D)) :
+    ((D : Rat) ≤ S / g + ((recompute rows g).offsets.sum : Int)) ∧
+      S / g + ((recompute rows g).offsets.sum : Int) < (D : Rat) + errorMax g rows + 1 := by
+  cases rows with
+  | nil =>
+    simp only [pairRows, List.map_nil, Reach] at h
+    have h1 : S = 0 := congrArg Prod.fst h
+    have h2 : D = 0 := congrArg Prod.snd h
+    subst h1; subst h2
+    simp [recompute, errorMax]
+  | cons r rs =>
+    simp only [pairRows, List.map_cons, Reach] at h
+    obtain ⟨xd, hxd, ⟨S', D'⟩, hr, heq⟩ := h
+    simp only [pairRow, List.mem_map] at hxd
+    obtain ⟨x, hx, rfl⟩ := hxd
+    have h1 : S = x + S' := congrArg Prod.fst heq
+    have h2 : D = ⌊x / g⌋ + rowOffset (floorRow g r) + D' := congrArg Prod.snd heq
+    obtain ⟨i1, i2⟩ := reach_tailRows g rs hr
+    have f1 := Int.floor_le (x / g)
+    have f2 := Int.lt_floor_add_one (x / g)
+    subst h1; subst h2
+    rw [errorMax_eq, offsets_eq]
+    simp only [List.map_cons, List.sum_cons, Int.cast_add, add_div, List.drop_one, List.tail_cons]
+    constructor <;> linarith
+
 end LMV.Tfm
